@@ -82,6 +82,9 @@ def _paths(t):
         return _paths(t[1])
     if k == '?':
         return [[['?ERR']], [['?OK']]]
+    if k == 'PANIC' and len(t) > 1 and t[1] in ('expect', 'unwrap'):
+        # `x.expect(..)` either panics or continues with the payload: two paths
+        return [[t], [['NOPANIC', t[1]]]]
     return [[t]]
 
 
